@@ -138,6 +138,11 @@ impl LiteralData {
             file_name: file_name.into(),
             created: Timestamp::now(),
         };
+        ensure!(
+            header.file_name.len() <= 255,
+            "file name too long: {} octets, at most 255 are possible",
+            header.file_name.len()
+        );
         let len = header.write_len() + data.len();
         let packet_header = PacketHeader::new_fixed(Tag::LiteralData, len.try_into()?);
 
@@ -157,6 +162,11 @@ impl LiteralData {
             file_name: file_name.into(),
             created: Timestamp::now(),
         };
+        ensure!(
+            header.file_name.len() <= 255,
+            "file name too long: {} octets, at most 255 are possible",
+            header.file_name.len()
+        );
         let len = header.write_len() + data.len();
         let packet_header = PacketHeader::new_fixed(Tag::LiteralData, len.try_into()?);
 
